@@ -165,7 +165,16 @@ def c19(tier):
     return c
 
 
-CHECKS = {"C19": c19, "C16": c16, "C13": c13, "C14": c14, "C15": c15, "C05": c05, "C12": c12, "C01": c01, "C02": c02, "C03": c03, "C04": c04, "C08": c08, "C10": c10}
+def c09(tier):
+    c = _topo("C09", 9, tier, 45, 1500)
+    c.rule = ("one evaluation = one modifying history (restrict, Group/Misc insertion, distance grouping, dup, xml_restart, shm adoption) with the "
+              "read-only battery run at seeded points on the reached state: 5-45 sampled query sets/objects per battery, every helper compared with a "
+              "brute-force evaluation of its documented definition over the canonical dump; the helper-vs-definition relation is a state invariant, the "
+              "sampled queries are input generation (counted in counters.queries); distinct_nontrivial = distinct (canonical dump after an op, op kind) pairs")
+    return c
+
+
+CHECKS = {"C09": c09, "C19": c19, "C16": c16, "C13": c13, "C14": c14, "C15": c15, "C05": c05, "C12": c12, "C01": c01, "C02": c02, "C03": c03, "C04": c04, "C08": c08, "C10": c10}
 
 
 # ------------------------------------------------------------------------------------------------ C17 (scheduler machine)
